@@ -301,6 +301,8 @@ struct Sink {
     data: Vec<u8>,
     calls: usize,
     fail_at: usize,
+    /// what an accepting callback returns: any non-zero int means "ok" (mz_bool)
+    ok_value: i32,
 }
 
 unsafe extern "C" fn sink_put(buf: *const c_void, len: c_int, user: *mut c_void) -> i32 {
@@ -310,7 +312,7 @@ unsafe extern "C" fn sink_put(buf: *const c_void, len: c_int, user: *mut c_void)
         return 0;
     }
     s.data.extend_from_slice(std::slice::from_raw_parts(buf as *const u8, len as usize));
-    1
+    if s.ok_value == i32::MIN { len.max(1) } else { s.ok_value }
 }
 
 /// The callback-driven C functions against compress_to_output: tdefl_init(put_buf) +
@@ -330,7 +332,7 @@ fn callback_family(input: &[u8], level: i32, zlib: bool, place: Place) -> Result
             }
             for mid in [0u8, 2, 3] {
                 for fail_at in [usize::MAX, 0, 1, 2] {
-                    let mut sink = Sink { data: vec![], calls: 0, fail_at };
+                    let mut sink = Sink { data: vec![], calls: 0, fail_at, ok_value: [1, 2, -1, 256, i32::MIN][(fail_at.wrapping_add(input.len())) % 5] };
                     let d = c::tdefl_allocate();
                     if c::tdefl_init(d.as_mut(), Some(sink_put), &mut sink as *mut Sink as *mut c_void, flags as c_int) as i32 != 0 {
                         c::tdefl_deallocate(d);
@@ -409,7 +411,7 @@ fn callback_family(input: &[u8], level: i32, zlib: bool, place: Place) -> Result
         let mut rc = CompressorOxide::new(flags);
         let want = crate::props::c01::compress_all(&mut rc, input)?;
         for fail_at in [usize::MAX, 0] {
-            let mut sink = Sink { data: vec![], calls: 0, fail_at };
+            let mut sink = Sink { data: vec![], calls: 0, fail_at, ok_value: [1, 2, -1, 256, i32::MIN][(fail_at.wrapping_add(input.len())) % 5] };
             let (inp, _) = capi::pooled(input.len(), place, 9);
             std::ptr::copy_nonoverlapping(input.as_ptr(), inp, input.len());
             let ok = c::tdefl_compress_mem_to_output(inp as *const c_void, input.len(), Some(sink_put), &mut sink as *mut Sink as *mut c_void, flags as c_int);
@@ -453,8 +455,8 @@ fn reinit_family(input: &[u8], level: i32, zlib: bool, place: Place) -> Result<u
         for first_cb in [false, true] {
             for second_cb in [false, true] {
                 for first_len in [0usize, input.len().min(300), input.len()] {
-                    let mut sink1 = Sink { data: vec![], calls: 0, fail_at: usize::MAX };
-                    let mut sink2 = Sink { data: vec![], calls: 0, fail_at: usize::MAX };
+                    let mut sink1 = Sink { data: vec![], calls: 0, fail_at: usize::MAX, ok_value: 1 };
+                    let mut sink2 = Sink { data: vec![], calls: 0, fail_at: usize::MAX, ok_value: 1 };
                     let d = c::tdefl_allocate();
                     let cb1: Option<unsafe extern "C" fn(*const c_void, c_int, *mut c_void) -> i32> = if first_cb { Some(sink_put) } else { None };
                     if c::tdefl_init(d.as_mut(), cb1, &mut sink1 as *mut Sink as *mut c_void, flags as c_int) as i32 != 0 {
